@@ -68,6 +68,31 @@ func runC01(cfg *hx.Config) {
 		runRoundTrip("Prims", prims, "float-sweep", rep, sh)
 		rep.Count("float-sweep")
 	}
+	// wide collections: element counts around 64 / 128 and documents with very many (empty) containers - a codec's behaviour must
+	// not depend on how many items, siblings or nested containers a value has (up to 130 items the model is evaluated too; beyond
+	// that the round-trip oracle alone decides: the model's fuel bounds the item count it can walk)
+	for _, n := range []int{63, 64, 65, 66, 129, 300, 1100, 2100} {
+		var modelSh *hx.Shards
+		if n <= 130 {
+			modelSh = sh
+		}
+		strs, maps, inners, kids := []*Val{}, []*Val{}, []*Val{}, []*Val{}
+		for i := 0; i < n; i++ {
+			strs = append(strs, &Val{K: "str", S: fmt.Sprintf("s%d", i)})
+			m := &Val{K: "map"}
+			if i%3 == 0 {
+				m.Keys, m.Items = []string{"k"}, []*Val{{K: "long", Z: int64(i)}}
+			}
+			maps = append(maps, m)
+			inners = append(inners, &Val{K: "rec", Fields: []*Val{{K: "int", Z: int64(i)}, nil}})
+			kids = append(kids, &Val{K: "rec", Fields: []*Val{{K: "int", Z: int64(i)}, nil, {K: "arr"}}})
+		}
+		coll := &Val{K: "rec", Fields: []*Val{{K: "arr", Items: strs}, {K: "map"}, {K: "map", Keys: []string{"k"}, Items: []*Val{{K: "arr", Items: inners}}}, {K: "arr", Items: maps}, nil, nil}}
+		runRoundTrip("Coll", coll, fmt.Sprintf("wide-%d", n), rep, modelSh)
+		rec := &Val{K: "rec", Fields: []*Val{{K: "int", Z: 1}, nil, {K: "arr", Items: kids}}}
+		runRoundTrip("Rec", rec, fmt.Sprintf("wide-%d", n), rep, modelSh)
+		rep.Count("wide-collections")
+	}
 	runHistories(cfg, r, rep, sh)
 	runConcurrent(cfg, r, rep)
 	sh.Close()
